@@ -680,3 +680,410 @@ Qed.
 
 Theorem strip_nulls_w_enc v buf : wfb v = true -> top_ok v -> strip_nulls_w (enc v) buf = Ok (buf ++ enc (strip_nulls_t v)).
 Proof. intros Hw Ht. unfold strip_nulls_w. rewrite (is_jsonb_enc v Hw Ht). apply strip_nulls_b_enc. exact Hw. Qed.
+
+(* ================================================================ delete_by_keypath *)
+(* what a nested call must answer: nothing to do, or a builder entry that denotes the edited child *)
+Definition del_ok (got : res (option (entry * list keypath))) (want : option value) : Prop :=
+  match want with
+  | Some v' => wf_size v' = true ->
+               exists e kp', got = Ok (Some (e, kp')) /\ entry_item e = (ent v', payload v') /\ entry_okb e = true
+  | None => got = Ok None
+  end.
+Definition wrap_arr (o : option (list entry * list keypath)) : option (entry * list keypath) :=
+  match o with Some (es, ks') => Some (EArr es, ks') | None => None end.
+Definition wrap_obj (o : option (list (list N * entry) * list keypath)) : option (entry * list keypath) :=
+  match o with Some (b, ks') => Some (EObj b, ks') | None => None end.
+
+Lemma remove_nth_mid {A} (pre : list A) x post : remove_nth (pre ++ x :: post) (length pre) = pre ++ post.
+Proof. induction pre as [|y pre IH]; cbn [app length remove_nth]; [reflexivity|rewrite IH; reflexivity]. Qed.
+Lemma replace_nth_mid {A} (pre : list A) x y post : replace_nth (pre ++ x :: post) (length pre) y = pre ++ y :: post.
+Proof. induction pre as [|z pre IH]; cbn [app length replace_nth]; [reflexivity|rewrite IH; reflexivity]. Qed.
+Lemma nth_opt_some {A} (l : list A) n : (n < length l)%nat -> exists x, nth_opt l n = Some x.
+Proof.
+  revert n. induction l as [|y l IH]; intros n H; cbn [length] in H; [lia|]. destruct n as [|n]; cbn [nth_opt]; [eauto|]. apply IH. lia.
+Qed.
+Lemma raw_all_ok l : Forall (fun v => wf_size v = true) l -> Forall (fun e => entry_okb e = true) (map raw_of l).
+Proof. intros H. rewrite Forall_map. eapply Forall_impl; [|exact H]. intros v Hv. apply raw_ok. exact Hv. Qed.
+
+Lemma arr_entry_ok es l' : map entry_item es = map entry_item (map raw_of l') -> wf_size (VArr l') = true ->
+  Forall (fun e => entry_okb e = true) es ->
+  entry_item (EArr es) = (ent (VArr l'), payload (VArr l')) /\ entry_okb (EArr es) = true.
+Proof.
+  intros E Hs Hok. pose proof (entry_item_arr_ext _ _ E) as EI. rewrite entry_item_arr_raw in EI. split; [exact EI|].
+  cbn [entry_okb]. apply andb_true_iff. split.
+  - rewrite EI. cbn [snd]. pose proof (payload_small _ Hs). apply N.ltb_lt. lia.
+  - apply forallb_forall. rewrite Forall_forall in Hok. exact Hok.
+Qed.
+Lemma obj_entry_ok b o' : map fst b = map fst o' ->
+  map (fun ke => entry_item (snd ke)) b = map (fun kv => entry_item (raw_of (snd kv))) o' -> wf_size (VObj o') = true ->
+  Forall (fun ke => entry_okb (snd ke) = true) b ->
+  entry_item (EObj b) = (ent (VObj o'), payload (VObj o')) /\ entry_okb (EObj b) = true.
+Proof.
+  intros Ek Ev Hs Hok.
+  assert (Ek' : map fst b = map fst (raw_members o')) by (unfold raw_members; rewrite map_map; exact Ek).
+  assert (Ev' : map (fun ke => entry_item (snd ke)) b = map (fun ke => entry_item (snd ke)) (raw_members o'))
+    by (unfold raw_members; rewrite map_map; exact Ev).
+  pose proof (entry_item_obj_ext _ _ Ek' Ev') as EI. rewrite entry_item_obj_raw in EI. split; [exact EI|].
+  cbn [entry_okb]. apply andb_true_iff. split.
+  - rewrite EI. cbn [snd]. pose proof (payload_small _ Hs). apply N.ltb_lt. lia.
+  - apply forallb_forall. rewrite Forall_forall in Hok. exact Hok.
+Qed.
+
+(* ---- arrays ---- *)
+Section DelArr.
+  Variable rec : list N -> list keypath -> res (option (entry * list keypath)).
+  Variable idx : N.
+  Let step := fun s (x : value) => del_arr_step rec idx s (ent x) (payload x).
+
+  Lemma del_arr_skip (t rest : list value) : forall n es kp, (idx < n \/ n + lenN t <= idx) ->
+    fold_exit step (del_arr_fin) (t ++ rest) (n, es, kp) = fold_exit step (del_arr_fin) rest (n + lenN t, es ++ map raw_of t, kp).
+  Proof.
+    induction t as [|x t IH]; intros n es kp Hn; cbn [app map].
+    - rewrite lenN_nil, N.add_0_r, app_nil_r. reflexivity.
+    - cbn [fold_exit]. unfold step at 1. unfold del_arr_step.
+      rewrite lenN_cons in Hn. assert (E : n =? idx = false) by (apply N.eqb_neq; lia). rewrite E. cbn [negb bind].
+      rewrite IH by lia. rewrite lenN_cons, <- app_assoc. cbn [app]. fold (raw_of x).
+      replace (n + 1 + lenN t) with (n + (1 + lenN t)) by lia. reflexivity.
+  Qed.
+
+  Lemma del_arr_fold (pre : list value) x post r : idx = lenN pre ->
+    fold_exit step del_arr_fin (pre ++ x :: post) (0, [], r)
+    = if kp_nil r then Ok (Some (map raw_of pre ++ map raw_of post, r))
+      else if is_container x then
+        do o <- rec (payload x) r;
+        match o with
+        | Some (e, kp') => Ok (Some (map raw_of pre ++ e :: map raw_of post, kp'))
+        | None => Ok None
+        end
+      else Ok None.
+  Proof.
+    intros Ei. rewrite (del_arr_skip pre (x :: post) 0 [] r) by lia. cbn [app fold_exit]. rewrite N.add_0_l.
+    unfold step at 1. unfold del_arr_step. rewrite <- Ei, N.eqb_refl. cbn [negb].
+    pose proof (del_arr_skip post [] (idx + 1)) as SK. rewrite !app_nil_r in SK. cbn [fold_exit] in SK. unfold del_arr_fin in SK. cbn [fst snd] in SK.
+    destruct (kp_nil r); cbn [negb bind].
+    - rewrite SK by lia. reflexivity.
+    - rewrite tag_container. destruct (is_container x); [|reflexivity].
+      destruct (rec (payload x) r) as [[[e kp']|]|err|]; cbn [bind]; try reflexivity.
+      rewrite SK by lia. rewrite <- app_assoc. reflexivity.
+  Qed.
+End DelArr.
+
+Lemma lenZ_lenN {A} (l : list A) : Z.of_N (lenN l) = lenZ l.
+Proof. unfold lenN, lenZ. lia. Qed.
+
+Lemma del_arr_spec rec l ks ft : wfb (VArr l) = true ->
+  (forall k r, ks = k :: r -> forall c, In c l -> is_container c = true -> del_ok (rec (payload c) r) (del_keypath ft c r)) ->
+  del_ok (do o <- del_arr rec (payload (VArr l)) (arr_hdr l) ks; Ok (wrap_arr o)) (del_keypath (S ft) (VArr l) ks).
+Proof.
+  intros Hw Hrec. destruct (wf_arr l Hw) as [Hall Hn]. destruct (arr_hdr_facts l Hn) as (_ & _ & HL).
+  assert (Hsz : Forall (fun v => wf_size v = true) l) by (eapply Forall_impl; [|exact Hall]; intros c Hc; apply wfb_size; exact Hc).
+  destruct ks as [|[i|n|n] r]; try reflexivity.
+  cbn [del_keypath del_arr]. rewrite HL, lenZ_lenN. unfold resolve.
+  set (j := (if (i <? 0)%Z then (lenZ l + i)%Z else i)).
+  destruct ((j <? 0) || (lenZ l <=? j))%Z eqn:C; [reflexivity|].
+  assert (Hj : (0 <= j < lenZ l)%Z) by lia.
+  destruct (nth_opt_some l (Z.to_nat j)) as [x Hx]; [unfold lenZ in Hj; lia|].
+  destruct (nth_opt_split l _ x Hx) as (pre & post & El & Lp & _).
+  rewrite <- (app_nil_r (payload (VArr l))), (iterate_array_arr _ _ l [] _ Hsz Hn).
+  specialize (Hrec (KIndex i) r eq_refl x).
+  assert (Ei : Z.to_N j = lenN pre) by (unfold lenN; lia).
+  rewrite Hx. rewrite <- Lp. rewrite El in *. clear El.
+  rewrite (del_arr_fold rec (Z.to_N j) pre x post r Ei), remove_nth_mid.
+  apply Forall_app in Hsz. destruct Hsz as [Hpre Hpost]. inversion Hpost as [|? ? Hxs Hpost']; subst.
+  destruct r as [|k2 r2]; cbn [kp_nil bind wrap_arr].
+  - intros Hs. eexists _, _. split; [reflexivity|]. apply arr_entry_ok; [rewrite !map_app; reflexivity|exact Hs|].
+    apply Forall_app. split; apply raw_all_ok; assumption.
+  - destruct (is_container x) eqn:Cx; [|reflexivity].
+    specialize (Hrec ltac:(apply in_or_app; right; left; reflexivity) eq_refl).
+    destruct (del_keypath ft x (k2 :: r2)) as [x'|]; cbn [del_ok] in Hrec |- *.
+    + rewrite replace_nth_mid. intros Hs.
+      assert (Hx' : wf_size x' = true).
+      { apply wf_size_arr in Hs. apply Forall_app in Hs. destruct Hs as [_ Hs]. inversion Hs; assumption. }
+      destruct (Hrec Hx') as (e & kp' & E1 & E2 & E3). rewrite E1. cbn [bind wrap_arr].
+      eexists _, _. split; [reflexivity|]. apply arr_entry_ok; [|exact Hs|].
+      * rewrite !map_app. cbn [map]. rewrite E2. reflexivity.
+      * apply Forall_app. split; [apply raw_all_ok; assumption|]. constructor; [exact E3|apply raw_all_ok; assumption].
+    + rewrite Hrec. reflexivity.
+Qed.
+
+(* ---- objects ---- *)
+Lemma bytes_eqb_sym a b : bytes_eqb a b = bytes_eqb b a.
+Proof. rewrite !bytes_eqb_cmp, (bytes_antisym a b). destruct (bytes_cmp b a); reflexivity. Qed.
+Lemma bytes_eqb_true a b : bytes_eqb a b = true -> a = b.
+Proof. rewrite bytes_eqb_cmp. destruct (bytes_cmp a b) eqn:E; try discriminate. intros _. apply bytes_cmp_eq. exact E. Qed.
+Lemma bytes_eqb_refl a : bytes_eqb a a = true.
+Proof. rewrite bytes_eqb_cmp, bytes_refl. reflexivity. Qed.
+
+Definition key_ne (name : list N) (kv : list N * value) : Prop := bytes_eqb (fst kv) name = false.
+
+Lemma ss_app_l {V} (a b : list (list N * V)) : strongly_sorted (a ++ b) -> strongly_sorted a.
+Proof.
+  induction a as [|[k x] a IH]; cbn [app strongly_sorted]; [auto|]. intros [H1 H2]. split; [|apply IH; exact H2].
+  apply Forall_app in H1. apply H1.
+Qed.
+Lemma ss_all_below {V} (a t : list (list N * V)) : strongly_sorted (a ++ t) -> Forall (fun kv => keys_below (fst kv) a) t.
+Proof.
+  induction a as [|[k x] a IH]; cbn [app strongly_sorted].
+  - intros _. apply Forall_forall. intros kv _. constructor.
+  - intros [H1 H2]. specialize (IH H2). apply Forall_app in H1. destruct H1 as [_ H1].
+    rewrite Forall_forall in *. intros kv Hin. constructor; [|apply IH; exact Hin].
+    cbn [fst]. rewrite bytes_antisym, (H1 kv Hin). reflexivity.
+Qed.
+
+Lemma obj_find name (o : list (list N * value)) : strongly_sorted o ->
+  Forall (key_ne name) o \/
+  exists pre x post, o = pre ++ (name, x) :: post /\ Forall (key_ne name) pre /\ Forall (key_ne name) post.
+Proof.
+  induction o as [|[k x] o IH]; intros So; [left; constructor|].
+  destruct So as [S1 S2]. destruct (bytes_eqb k name) eqn:E.
+  - right. apply bytes_eqb_true in E. subst k. exists [], x, o. split; [reflexivity|]. split; [constructor|].
+    eapply Forall_impl; [|exact S1]. intros kv Hkv. unfold key_ne. cbn beta in Hkv.
+    rewrite bytes_eqb_cmp, bytes_antisym, Hkv. reflexivity.
+  - destruct (IH S2) as [Hne|(pre & x0 & post & Eo & Hp & Hq)].
+    + left. constructor; [exact E|exact Hne].
+    + right. exists ((k, x) :: pre), x0, post. split; [rewrite Eo; reflexivity|]. split; [constructor; [exact E|exact Hp]|exact Hq].
+Qed.
+
+Lemma lookup_ne name (o : list (list N * value)) : Forall (key_ne name) o -> assoc_lookup name o = None.
+Proof.
+  induction 1 as [|[k x] o Hk _ IH]; cbn [assoc_lookup]; [reflexivity|]. unfold key_ne in Hk. cbn [fst] in Hk.
+  rewrite bytes_eqb_sym, Hk. exact IH.
+Qed.
+Lemma lookup_mid name (pre : list (list N * value)) x post : Forall (key_ne name) pre ->
+  assoc_lookup name (pre ++ (name, x) :: post) = Some x.
+Proof.
+  induction 1 as [|[k y] o Hk _ IH]; cbn [app assoc_lookup]; [rewrite bytes_eqb_refl; reflexivity|].
+  unfold key_ne in Hk. cbn [fst] in Hk. rewrite bytes_eqb_sym, Hk. exact IH.
+Qed.
+Lemma remove_ne name (o : list (list N * value)) : Forall (key_ne name) o -> assoc_remove name o = o.
+Proof.
+  unfold assoc_remove. induction 1 as [|[k x] o Hk _ IH]; cbn [filter]; [reflexivity|]. unfold key_ne in Hk. cbn [fst] in *.
+  rewrite bytes_eqb_sym, Hk. cbn [negb]. rewrite IH. reflexivity.
+Qed.
+Lemma remove_mid name (pre : list (list N * value)) x post : Forall (key_ne name) pre -> Forall (key_ne name) post ->
+  assoc_remove name (pre ++ (name, x) :: post) = pre ++ post.
+Proof.
+  intros Hp Hq. unfold assoc_remove. rewrite filter_app. cbn [filter fst]. rewrite bytes_eqb_refl. cbn [negb].
+  fold (assoc_remove name pre). fold (assoc_remove name post). rewrite (remove_ne name pre Hp), (remove_ne name post Hq). reflexivity.
+Qed.
+Lemma replace_ne name x' (o : list (list N * value)) : Forall (key_ne name) o -> assoc_replace name x' o = o.
+Proof.
+  unfold assoc_replace. induction 1 as [|[k x] o Hk _ IH]; cbn [map]; [reflexivity|]. unfold key_ne in Hk. cbn [fst] in *.
+  rewrite bytes_eqb_sym, Hk, IH. reflexivity.
+Qed.
+Lemma replace_mid name x' (pre : list (list N * value)) x post : Forall (key_ne name) pre -> Forall (key_ne name) post ->
+  assoc_replace name x' (pre ++ (name, x) :: post) = pre ++ (name, x') :: post.
+Proof.
+  intros Hp Hq. unfold assoc_replace. rewrite map_app. cbn [map fst]. rewrite bytes_eqb_refl.
+  fold (assoc_replace name x' pre). fold (assoc_replace name x' post). rewrite (replace_ne name x' pre Hp), (replace_ne name x' post Hq). reflexivity.
+Qed.
+
+Lemma raw_members_fst a : map fst (raw_members a) = map fst a.
+Proof. unfold raw_members. rewrite map_map. reflexivity. Qed.
+Lemma raw_members_items a : map (fun ke => entry_item (snd ke)) (raw_members a) = map (fun kv => entry_item (raw_of (snd kv))) a.
+Proof. unfold raw_members. rewrite map_map. reflexivity. Qed.
+Lemma raw_members_ok a : Forall (fun kv => wf_size (snd kv) = true) a -> Forall (fun ke => entry_okb (snd ke) = true) (raw_members a).
+Proof. intros H. unfold raw_members. rewrite Forall_map. eapply Forall_impl; [|exact H]. intros kv Hkv. apply raw_ok. exact Hkv. Qed.
+
+Section DelObj.
+  Variable rec : list N -> list keypath -> res (option (entry * list keypath)).
+  Variable name : list N.
+  Let step := fun s (kv : list N * value) => del_obj_step rec name s (fst kv) (ent (snd kv)) (payload (snd kv)).
+  Let fin := fun st : list (list N * entry) * list keypath => Ok (Some st) : res (option (list (list N * entry) * list keypath)).
+
+  Lemma del_obj_skip (t rest : list (list N * value)) : forall b kp, strongly_sorted t ->
+    Forall (fun kv => keys_below (fst kv) b) t -> Forall (key_ne name) t ->
+    fold_exit step fin (t ++ rest) (b, kp) = fold_exit step fin rest (b ++ raw_members t, kp).
+  Proof.
+    induction t as [|[k x] t IH]; intros b kp St Hb Hne; cbn [app].
+    - rewrite app_nil_r. reflexivity.
+    - cbn [fold_exit]. unfold step at 1. unfold del_obj_step. cbn [fst snd].
+      inversion Hne as [|? ? Hk Hne']; subst. unfold key_ne in Hk. cbn [fst] in Hk. rewrite Hk. cbn [negb bind].
+      inversion Hb as [|? ? Hbk Hb']; subst. cbn [fst] in Hbk. rewrite (push_last _ _ _ Hbk).
+      destruct St as [S1 S2]. rewrite IH; [|exact S2| |exact Hne'].
+      + fold (raw_of x). rewrite <- app_assoc. reflexivity.
+      + rewrite Forall_forall in *. intros kv Hin. apply Forall_app. split; [apply Hb'; exact Hin|].
+        constructor; [|constructor]. cbn [fst]. rewrite bytes_antisym, (S1 kv Hin). reflexivity.
+  Qed.
+
+  Lemma del_obj_fold_ne (o : list (list N * value)) r : strongly_sorted o -> Forall (key_ne name) o ->
+    fold_exit step fin o ([], r) = Ok (Some (raw_members o, r)).
+  Proof.
+    intros So Hne. pose proof (del_obj_skip o [] [] r So) as SK. rewrite app_nil_r in SK. rewrite SK; [reflexivity| |exact Hne].
+    apply Forall_forall. intros kv _. constructor.
+  Qed.
+
+  Lemma del_obj_fold (pre : list (list N * value)) x post r : strongly_sorted (pre ++ (name, x) :: post) ->
+    Forall (key_ne name) pre -> Forall (key_ne name) post ->
+    fold_exit step fin (pre ++ (name, x) :: post) ([], r)
+    = if kp_nil r then Ok (Some (raw_members pre ++ raw_members post, r))
+      else if is_container x then
+        do o <- rec (payload x) r;
+        match o with
+        | Some (e, kp') => Ok (Some (raw_members pre ++ (name, e) :: raw_members post, kp'))
+        | None => Ok None
+        end
+      else Ok None.
+  Proof.
+    intros So Hp Hq.
+    rewrite (del_obj_skip pre ((name, x) :: post) [] r (ss_app_l _ _ So)); [| |exact Hp].
+    2:{ apply Forall_forall. intros kv _. constructor. }
+    cbn [app fold_exit]. unfold step at 1. unfold del_obj_step. cbn [fst snd]. rewrite bytes_eqb_refl. cbn [negb].
+    assert (So' : strongly_sorted ((pre ++ [(name, x)]) ++ post)) by (rewrite <- app_assoc; exact So).
+    pose proof (ss_all_below _ _ So') as AB. pose proof (ss_app_r _ _ So) as Sx. destruct Sx as [_ Spost].
+    pose proof (ss_app_mid _ _ _ _ So) as Bn.
+    assert (SK : forall b kp, map fst b = map fst pre \/ map fst b = map fst (pre ++ [(name, x)]) ->
+                 fold_exit step fin post (b, kp) = Ok (Some (b ++ raw_members post, kp))).
+    { intros b kp Hbk. pose proof (del_obj_skip post [] b kp Spost) as SK. rewrite app_nil_r in SK. rewrite SK; [reflexivity| |exact Hq].
+      rewrite Forall_forall in *. intros kv Hin. specialize (AB kv Hin). unfold keys_below in *.
+      assert (G : Forall (fun k => bytes_cmp (fst kv) k = Gt) (map fst b)).
+      { destruct Hbk as [-> | ->]; rewrite Forall_map; [|exact AB]. apply Forall_app in AB. apply AB. }
+      rewrite Forall_map in G. exact G. }
+    destruct (kp_nil r); cbn [negb bind].
+    - rewrite SK; [reflexivity|]. left. apply raw_members_fst.
+    - rewrite tag_container. destruct (is_container x); [|reflexivity].
+      destruct (rec (payload x) r) as [[[e kp']|]|err|]; cbn [bind]; try reflexivity.
+      rewrite (push_last _ _ _ (keys_below_raw _ _ Bn)). rewrite SK.
+      + rewrite <- app_assoc. reflexivity.
+      + right. rewrite !map_app, raw_members_fst. reflexivity.
+  Qed.
+End DelObj.
+
+Lemma del_obj_name rec o n r ft : wfb (VObj o) = true ->
+  (forall c, In c (vals o) -> is_container c = true -> del_ok (rec (payload c) r) (del_keypath ft c r)) ->
+  del_ok (do o' <- iterate_object_entries (payload (VObj o)) (obj_hdr o) (del_obj_step rec n) (fun st => Ok (Some st)) ([], r);
+          Ok (wrap_obj o'))
+         (match r with
+          | [] => Some (VObj (assoc_remove n o))
+          | _ :: _ => match assoc_lookup n o with
+                      | Some x => if is_container x then
+                                    match del_keypath ft x r with
+                                    | Some x' => Some (VObj (assoc_replace n x' o))
+                                    | None => None end
+                                  else None
+                      | None => Some (VObj o)
+                      end
+          end).
+Proof.
+  intros Hw Hrec. destruct (obj_ok_of_wf o Hw) as [Ho Hn]. pose proof (obj_sorted o Hw) as So.
+  rewrite <- (app_nil_r (payload (VObj o))), (iterate_object_entries_obj _ _ o [] _ Ho Hn).
+  assert (Same : del_ok (Ok (wrap_obj (Some (raw_members o, r)))) (Some (VObj o))).
+  { intros Hs. cbn [wrap_obj]. eexists _, _. split; [reflexivity|]. split; [apply entry_item_obj_raw|apply obj_raw_ok; exact Hs]. }
+  destruct (obj_find n o So) as [Hne|(pre & x & post & Eo & Hp & Hq)].
+  - rewrite (del_obj_fold_ne rec n o r So Hne). cbn [bind]. rewrite (remove_ne n o Hne), (lookup_ne n o Hne).
+    destruct r; exact Same.
+  - subst o. rewrite (del_obj_fold rec n pre x post r So Hp Hq), (remove_mid n pre x post Hp Hq), (lookup_mid n pre x post Hp).
+    destruct r as [|k2 r2]; cbn [kp_nil bind wrap_obj].
+    + intros Hs. eexists _, _. split; [reflexivity|]. rewrite <- raw_members_app.
+      split; [apply entry_item_obj_raw|apply obj_raw_ok; exact Hs].
+    + destruct (is_container x) eqn:Cx; [|reflexivity].
+      specialize (Hrec x ltac:(unfold vals; rewrite map_app; apply in_or_app; right; left; reflexivity) Cx).
+      destruct (del_keypath ft x (k2 :: r2)) as [x'|]; cbn [del_ok] in Hrec |- *.
+      * rewrite (replace_mid n x' pre x post Hp Hq). intros Hs.
+        pose proof (proj1 (wf_size_obj_iff _) Hs) as (_ & _ & Hms).
+        apply Forall_app in Hms. destruct Hms as [Hms1 Hms2]. inversion Hms2 as [|? ? [_ Hx'] Hms3]; subst. cbn [snd] in Hx'.
+        destruct (Hrec Hx') as (e & kp' & E1 & E2 & E3). rewrite E1. cbn [bind wrap_obj].
+        eexists _, _. split; [reflexivity|]. apply obj_entry_ok; [| |exact Hs|].
+        -- rewrite !map_app. cbn [map fst]. rewrite !raw_members_fst. reflexivity.
+        -- rewrite !map_app. cbn [map snd]. rewrite !raw_members_items, E2. reflexivity.
+        -- apply Forall_app. split; [apply raw_members_ok; eapply Forall_impl; [|exact Hms1]; intros kv H; apply H|].
+           constructor; [exact E3|]. apply raw_members_ok. eapply Forall_impl; [|exact Hms3]. intros kv H. apply H.
+      * rewrite Hrec. reflexivity.
+Qed.
+
+Lemma del_obj_spec rec o ks ft : wfb (VObj o) = true ->
+  (forall k r, ks = k :: r -> forall c, In c (vals o) -> is_container c = true -> del_ok (rec (payload c) r) (del_keypath ft c r)) ->
+  del_ok (do o' <- del_obj rec (payload (VObj o)) (obj_hdr o) ks; Ok (wrap_obj o')) (del_keypath (S ft) (VObj o) ks).
+Proof.
+  intros Hw Hrec. destruct ks as [|[i|n|n] r]; try reflexivity.
+  - exact (del_obj_name rec o n r ft Hw (Hrec _ _ eq_refl)).
+  - exact (del_obj_name rec o n r ft Hw (Hrec _ _ eq_refl)).
+Qed.
+
+(* ---- the nested call: both fuels (key-path length) are enough ---- *)
+Lemma del_keypath_nil ft x : del_keypath ft x [] = None.
+Proof. destruct ft as [|ft]; [reflexivity|]. destruct x; reflexivity. Qed.
+
+Lemma del_item_spec : forall ks x fw ft, wfb x = true -> is_container x = true ->
+  (length ks < fw)%nat -> (length ks <= ft)%nat -> del_ok (del_item fw (payload x) ks) (del_keypath ft x ks).
+Proof.
+  induction ks as [|k r IH]; intros x fw ft Hw Hc Hfw Hft.
+  - rewrite del_keypath_nil. destruct fw as [|f]; [cbn [length] in Hfw; lia|]. cbn [del_item del_ok].
+    destruct x as [| | | |l|o]; try discriminate Hc.
+    + destruct (wf_arr l Hw) as [_ Hn]. destruct (arr_hdr_facts l Hn) as (_ & HT & _).
+      rewrite <- (app_nil_r (payload (VArr l))), (read_hdr_arr0 l [] Hn), HT, N.eqb_refl. reflexivity.
+    + destruct (obj_ok_of_wf o Hw) as [_ Hn]. destruct (obj_hdr_facts o Hn) as (_ & HT & _).
+      rewrite <- (app_nil_r (payload (VObj o))), (read_hdr_obj0 o [] Hn), HT, obj_type_not_arr, N.eqb_refl. reflexivity.
+  - destruct fw as [|f]; [cbn [length] in Hfw; lia|]. destruct ft as [|ft]; [cbn [length] in Hft; lia|]. cbn [length] in Hfw, Hft.
+    destruct x as [| | | |l|o]; try discriminate Hc.
+    + destruct (wf_arr l Hw) as [Hall Hn]. destruct (arr_hdr_facts l Hn) as (_ & HT & _).
+      assert (R : read_u32 (payload (VArr l)) 0 = Some (arr_hdr l))
+        by (rewrite <- (app_nil_r (payload (VArr l))); apply (read_hdr_arr0 l [] Hn)).
+      cbn [del_item]. rewrite R, HT, N.eqb_refl.
+      apply (del_arr_spec (del_item f) l (k :: r) ft Hw).
+      intros k0 r0 E c Hin Cc. injection E as _ <-. apply IH; [|exact Cc|lia|lia].
+      rewrite Forall_forall in Hall. apply Hall. exact Hin.
+    + destruct (obj_ok_of_wf o Hw) as [_ Hn]. destruct (obj_hdr_facts o Hn) as (_ & HT & _).
+      assert (R : read_u32 (payload (VObj o)) 0 = Some (obj_hdr o))
+        by (rewrite <- (app_nil_r (payload (VObj o))); apply (read_hdr_obj0 o [] Hn)).
+      cbn [del_item]. rewrite R, HT, obj_type_not_arr, N.eqb_refl.
+      apply (del_obj_spec (del_item f) o (k :: r) ft Hw).
+      intros k0 r0 E c Hin Cc. injection E as _ <-. apply IH; [|exact Cc|lia|lia].
+      apply (wfb_obj_elem o c Hw Hin).
+Qed.
+
+Lemma item_container e v' : entry_item e = (ent v', payload v') -> fst (fst (entry_item e)) = CONTAINER_TAG -> enc v' = payload v'.
+Proof.
+  intros E T. rewrite E in T. cbn [fst] in T. pose proof (tag_container v') as C. rewrite T, N.eqb_refl in C.
+  destruct v'; try discriminate C; reflexivity.
+Qed.
+
+(* the size hypothesis is on the result (it is never larger than the input; not proved here) *)
+Theorem delete_by_keypath_b_enc v ks buf : wfb v = true ->
+  (forall y, delete_by_keypath_t v ks = Ok y -> wf_size y = true) ->
+  delete_by_keypath_b (enc v) ks buf = res_map (fun y => buf ++ enc y) (delete_by_keypath_t v ks).
+Proof.
+  intros Hw Hres. unfold delete_by_keypath_b. destruct v as [|b|s|n|l|o];
+    try (rewrite read_hdr_scalar by reflexivity; destruct scalar_hdr_type as [T1 T2]; rewrite T1, T2; reflexivity).
+  - destruct (wf_arr l Hw) as [Hall Hn]. destruct (arr_hdr_facts l Hn) as (_ & HT & _).
+    assert (R : read_u32 (payload (VArr l)) 0 = Some (arr_hdr l))
+      by (rewrite <- (app_nil_r (payload (VArr l))); apply (read_hdr_arr0 l [] Hn)).
+    rewrite enc_arr, R, HT, N.eqb_refl.
+    pose proof (del_arr_spec (del_item (length ks)) l ks (length ks) Hw) as D.
+    assert (Hrec : forall k r, ks = k :: r -> forall c, In c l -> is_container c = true ->
+                   del_ok (del_item (length ks) (payload c) r) (del_keypath (length ks) c r)).
+    { intros k r E c Hin Cc. subst ks. apply del_item_spec; [|exact Cc|cbn [length]; lia|cbn [length]; lia].
+      rewrite Forall_forall in Hall. apply Hall. exact Hin. }
+    specialize (D Hrec). cbn [delete_by_keypath_t] in *.
+    destruct (del_keypath (S (length ks)) (VArr l) ks) as [v'|]; cbn [del_ok res_map] in D |- *.
+    + destruct (D (Hres v' eq_refl)) as (e & kp' & E1 & E2 & E3).
+      destruct (del_arr (del_item (length ks)) (payload (VArr l)) (arr_hdr l) ks) as [[[es kp'']|]|err|]; cbn [bind wrap_arr] in E1; try discriminate E1.
+      injection E1 as <- _. cbn [bind]. rewrite (build_arr_into_spec _ _ E3). unfold epl. rewrite E2. cbn [snd].
+      rewrite (item_container _ _ E2 eq_refl). reflexivity.
+    + destruct (del_arr (del_item (length ks)) (payload (VArr l)) (arr_hdr l) ks) as [[[es kp'']|]|err|]; cbn [bind wrap_arr] in D; try discriminate D.
+      reflexivity.
+  - destruct (obj_ok_of_wf o Hw) as [_ Hn]. destruct (obj_hdr_facts o Hn) as (_ & HT & _).
+    assert (R : read_u32 (payload (VObj o)) 0 = Some (obj_hdr o))
+      by (rewrite <- (app_nil_r (payload (VObj o))); apply (read_hdr_obj0 o [] Hn)).
+    rewrite enc_obj, R, HT, obj_type_not_arr, N.eqb_refl.
+    pose proof (del_obj_spec (del_item (length ks)) o ks (length ks) Hw) as D.
+    assert (Hrec : forall k r, ks = k :: r -> forall c, In c (vals o) -> is_container c = true ->
+                   del_ok (del_item (length ks) (payload c) r) (del_keypath (length ks) c r)).
+    { intros k r E c Hin Cc. subst ks. apply del_item_spec; [|exact Cc|cbn [length]; lia|cbn [length]; lia].
+      apply (wfb_obj_elem o c Hw Hin). }
+    specialize (D Hrec). cbn [delete_by_keypath_t] in *.
+    destruct (del_keypath (S (length ks)) (VObj o) ks) as [v'|]; cbn [del_ok res_map] in D |- *.
+    + destruct (D (Hres v' eq_refl)) as (e & kp' & E1 & E2 & E3).
+      destruct (del_obj (del_item (length ks)) (payload (VObj o)) (obj_hdr o) ks) as [[[b kp'']|]|err|]; cbn [bind wrap_obj] in E1; try discriminate E1.
+      injection E1 as <- _. cbn [bind]. rewrite (build_obj_into_spec _ _ E3). unfold epl. rewrite E2. cbn [snd].
+      rewrite (item_container _ _ E2 eq_refl). reflexivity.
+    + destruct (del_obj (del_item (length ks)) (payload (VObj o)) (obj_hdr o) ks) as [[[b kp'']|]|err|]; cbn [bind wrap_obj] in D; try discriminate D.
+      reflexivity.
+Qed.
+
+Theorem delete_by_keypath_w_enc v ks buf : wfb v = true -> top_ok v ->
+  (forall y, delete_by_keypath_t v ks = Ok y -> wf_size y = true) ->
+  delete_by_keypath_w (enc v) ks buf = res_map (fun y => buf ++ enc y) (delete_by_keypath_t v ks).
+Proof.
+  intros Hw Ht Hres. unfold delete_by_keypath_w. rewrite (is_jsonb_enc v Hw Ht). apply delete_by_keypath_b_enc; assumption.
+Qed.
